@@ -332,6 +332,64 @@ def main(ctx):
                            'dir': d, 'setlen': v})
                     ctx.count((enc, mac, d, base, 'setlen', v),
                               nontrivial=m.changed(d))
+    # the model's replay / removal is not tied to a distance: the packet
+    # offered again may be ANY earlier one.  One limb (2^8 packets) of every
+    # per-packet counter that protects against it - the SSH sequence number
+    # in the MAC and in the chacha20 nonce, the invocation counter of AES-GCM
+    # (specs/Transport/Nonce.tla) - is crossed here: a packet of 256 (255,
+    # 257) packets ago put in front of the current one, and 256 consecutive
+    # packets removed, in sessions of 275 data packets
+    far_pl = [b'l%03d\n' % i for i in range(275)]
+    far_combos = [('aes128-gcm@openssh.com', macs[0]),
+                  ('chacha20-poly1305@openssh.com', macs[0]),
+                  ('aes128-ctr', 'hmac-sha2-256'),
+                  ('aes256-gcm@openssh.com', macs[0]),
+                  ('aes128-ctr', 'hmac-sha2-256-etm@openssh.com'),
+                  ('aes128-cbc', 'hmac-sha1'),
+                  ('aes256-ctr', 'umac-64@openssh.com')]
+    for ci, (enc, mac) in enumerate(far_combos[:3] if quick else far_combos):
+        kw = dict(encryption_algs=[enc], mac_algs=[mac],
+                  compression_algs=['none'])
+        ms = macsize_of(enc, mac)
+        for d in ('cs', 'sc'):
+            # (removal needs a sender that goes on without being answered:
+            # the client's burst of writes; the echo of a burst comes back
+            # in fewer, larger packets, so that direction is replayed into
+            # with one round trip per line)
+            cases = [('back', 256)] + ([('drop', 256)] if d == 'cs' else [])
+            if not quick:
+                cases += [('back', 255), ('back', 257), ('back', 512)] + \
+                    ([('drop', 512)] if d == 'cs' else [])
+            for kind, dist in cases:
+                if kind == 'back':
+                    if dist + 12 > 270:
+                        far = far_pl + far_pl
+                    else:
+                        far = far_pl
+                    actions = [dict(dir=d, op='splice', what='back',
+                                    back=dist, id=dist + 9)]
+                else:
+                    far = far_pl if dist < 260 else far_pl + far_pl
+                    actions = [dict(dir=d, op='drop', id=i)
+                               for i in range(12, 12 + dist)]
+                m = T.Mitm(actions, macsize=ms)
+                r = T.run_session(far, client_kw=kw, server_kw=kw, mitm=m,
+                                  burst=d == 'cs')
+                total += 1
+                if len(m.applied) != len(actions):
+                    raise MachineryError(
+                        f'distant {kind} {dist} {enc} {d}: only '
+                        f'{len(m.applied)} of {len(actions)} actions applied '
+                        f'(outcome {r["outcome"]})')
+                judge(ctx, T, r, m, d, actions[:3], far,
+                      f'{enc}/{mac} {d}: ' +
+                      (f'the packet of {dist} packets ago offered again'
+                       if kind == 'back' else
+                       f'{dist} consecutive packets removed'),
+                      {'module': 'Tamper', 'enc': enc, 'mac': mac, 'dir': d,
+                       'distant': kind, 'distance': dist})
+                ctx.count((enc, mac, d, 'distant', kind, dist),
+                          nontrivial=True)
     # F6 regression: packets removed, the rest arriving in several
     # data_received() calls before the deferred clean-up runs
     for enc in ('aes128-gcm@openssh.com', 'aes256-gcm@openssh.com',
